@@ -133,6 +133,11 @@ def cases(spec, ctx):
                     table[k] = ["set", [v + rng.choice([1, 2, 7])]]
             else:
                 table[k] = ["set", [rng.choice([True, False])]]
+        # as in the real levels 1-7 and 66: a flag forced False comes with an EMPTY entry for the value it would introduce
+        # (the value is not coded then, so nothing may be checked against that entry)
+        for flag, val in (("asym_transform_flag", "dwt_depth_ho"), ("asym_transform_index_flag", "wavelet_index_ho")):
+            if table.get(flag) == ["set", [False]] and rng.random() < 0.7:
+                table[val] = ["set", []]
         if rng.random() < 0.3:
             table["major_version"] = ["set", [rng.choice([1, 2, 3])]]
         case = {"recipe": r, "table": table, "pattern": rng.randrange(len(PATTERNS))}
